@@ -492,6 +492,11 @@ func (c *Canonicalizer) isPureBuiltin(call *ssa.Call) bool {
 	if name == "len" || name == "cap" {
 		if len(call.Call.Args) > 0 {
 			arg := call.Call.Args[0]
+			// The underlying type of a type parameter is its constraint interface, which says
+			// nothing here: the argument may well be a map or a channel (M ~map[K]V).
+			if _, isTypeParam := arg.Type().(*types.TypeParam); isTypeParam {
+				return false
+			}
 			t := arg.Type().Underlying()
 			switch t.(type) {
 			case *types.Map, *types.Chan:
